@@ -1,1 +1,154 @@
-From Servitor Require Import Base.
+(* C09 - Listings only show items that really belong there.
+   Listing.v models the three acceptance rules on top of the provenance rule of C02; the world of
+   servers, the cache and net/url are universally quantified.  served W is_https resolve host_of h v:
+   v was served (after redirects) by host h, at top level or embedded.  Only property theorems here. *)
+
+From Servitor Require Import Base Json Object Jtp Client Listing.
+From Servitor.Facts Require Import JtpFacts ClientFacts ListingFacts.
+
+(* an entry is shown as genuine in an actor's timeline only if it is an activity whose actor - after the re-fetch rule - is an actor document carrying exactly the owner's id, served by the host named in that id *)
+Theorem timeline_genuine :
+  forall (W : url -> entry) (is_https : url -> bool) (resolve : url -> bytes -> option url)
+  (cap : nat) (parse_ref : option url -> text -> option url)
+  (url_parse : text -> option url) (host_of : url -> text) (c : cache)
+  (owner : option url) (entry : jv) (source : option url) (c' : cache),
+  cache_sound W is_https resolve as_tolerated c ->
+  source = None \/
+  (exists s : url, source = Some s /\ served W is_https resolve host_of (host_of s) entry) ->
+  timeline_entry W is_https resolve cap parse_ref url_parse host_of c owner entry source =
+  (Genuine, c') ->
+  exists (own : url) (act actor_doc : obj),
+  owner = Some own /\
+  kind_in activity_kinds act = true /\
+  kind_in actor_kinds actor_doc = true /\
+  obj_id url_parse actor_doc = Some (Some own) /\
+  served W is_https resolve host_of (host_of own) (JObj actor_doc) /\
+  cache_sound W is_https resolve as_tolerated c'.
+Proof. exact timeline_genuine_fact. Qed.
+Print Assumptions timeline_genuine.
+
+(* every entry gets a verdict (genuine or error item): nothing is silently dropped *)
+Theorem timeline_total :
+  forall (W : url -> entry) (is_https : url -> bool) (resolve : url -> bytes -> option url)
+  (cap : nat) (parse_ref : option url -> text -> option url)
+  (url_parse : text -> option url) (host_of : url -> text) (c : cache)
+  (owner : option url) (entry : jv) (source : option url),
+  exists (v : verdict) (c' : cache),
+  timeline_entry W is_https resolve cap parse_ref url_parse host_of c owner entry source =
+  (v, c').
+Proof. exact timeline_total_fact. Qed.
+Print Assumptions timeline_total.
+
+Theorem timeline_cache_sound :
+  forall (W : url -> entry) (is_https : url -> bool) (resolve : url -> bytes -> option url)
+  (cap : nat) (parse_ref : option url -> text -> option url)
+  (url_parse : text -> option url) (host_of : url -> text) (c : cache)
+  (owner : option url) (entry : jv) (source : option url) (v : verdict)
+  (c' : cache),
+  cache_sound W is_https resolve as_tolerated c ->
+  source = None \/
+  (exists s : url, source = Some s /\ served W is_https resolve host_of (host_of s) entry) ->
+  timeline_entry W is_https resolve cap parse_ref url_parse host_of c owner entry source =
+  (v, c') -> cache_sound W is_https resolve as_tolerated c'.
+Proof. exact timeline_cache_sound_fact. Qed.
+Print Assumptions timeline_cache_sound.
+
+(* an entry is shown as a reply only if it is a post whose resolved parent id is string-equal to this very post's id (and that parent document was served by its id's host) *)
+Theorem reply_genuine :
+  forall (W : url -> entry) (is_https : url -> bool) (resolve : url -> bytes -> option url)
+  (cap : nat) (parse_ref : option url -> text -> option url)
+  (url_parse : text -> option url) (host_of : url -> text) (c : cache)
+  (this : option url) (entry : jv) (source : option url) (c' : cache),
+  cache_sound W is_https resolve as_tolerated c ->
+  source = None \/
+  (exists s : url, source = Some s /\ served W is_https resolve host_of (host_of s) entry) ->
+  reply_entry W is_https resolve cap parse_ref url_parse host_of c this entry source =
+  (Genuine, c') ->
+  exists (me : url) (cid : option url),
+  this = Some me /\
+  new_post W is_https resolve cap parse_ref url_parse host_of c entry source =
+  (Some (cid, Some me), c') /\
+  cache_sound W is_https resolve as_tolerated c' /\
+  (exists pdoc : obj,
+  obj_id url_parse pdoc = Some (Some me) /\
+  served W is_https resolve host_of (host_of me) (JObj pdoc)).
+Proof. exact reply_genuine_fact. Qed.
+Print Assumptions reply_genuine.
+
+(* a post results only if every creator that resolved to an actor lives on the post's host *)
+Theorem new_post_authors :
+  forall (W : url -> entry) (is_https : url -> bool) (resolve : url -> bytes -> option url)
+  (cap : nat) (parse_ref : option url -> text -> option url)
+  (url_parse : text -> option url) (host_of : url -> text) (c : cache)
+  (input : jv) (source id parent : option url) (c' : cache),
+  cache_sound W is_https resolve as_tolerated c ->
+  source = None \/
+  (exists s : url, source = Some s /\ served W is_https resolve host_of (host_of s) input) ->
+  new_post W is_https resolve cap parse_ref url_parse host_of c input source =
+  (Some (id, parent), c') ->
+  cache_sound W is_https resolve as_tolerated c' /\
+  (exists o : obj,
+  kind_in post_kinds o = true /\
+  (forall pid : url,
+  id = Some pid ->
+  served W is_https resolve host_of (host_of pid) (JObj o) /\
+  obj_id url_parse o = Some (Some pid)) /\
+  (exists c2 : cache,
+  creators_trace W is_https resolve cap parse_ref url_parse host_of c2 id
+  (attributed o) c') /\
+  (forall r : jv,
+  In r (attributed o) ->
+  exists (ci : cache) (a : option (option url)) (ci' : cache),
+  new_actor W is_https resolve cap parse_ref url_parse host_of ci r id = (a, ci') /\
+  (forall x : url,
+  a = Some (Some x) ->
+  exists doc : obj,
+  kind_in actor_kinds doc = true /\
+  obj_id url_parse doc = Some (Some x) /\
+  served W is_https resolve host_of (host_of x) (JObj doc) /\
+  (exists p : url, id = Some p /\ host_of x = host_of p)))).
+Proof. exact new_post_authors_fact. Qed.
+Print Assumptions new_post_authors.
+
+(* both ids absent counts as equal, exactly one absent does not *)
+Theorem creators_ok :
+  forall (W : url -> entry) (is_https : url -> bool) (resolve : url -> bytes -> option url)
+  (cap : nat) (parse_ref : option url -> text -> option url)
+  (url_parse : text -> option url) (host_of : url -> text) (refs : list jv)
+  (c : cache) (post_id : option url) (c' : cache),
+  creators_ok W is_https resolve cap parse_ref url_parse host_of c post_id refs = (true, c') ->
+  creators_trace W is_https resolve cap parse_ref url_parse host_of c post_id refs c'.
+Proof. exact creators_ok_fact. Qed.
+Print Assumptions creators_ok.
+
+Theorem new_post_parent :
+  forall (W : url -> entry) (is_https : url -> bool) (resolve : url -> bytes -> option url)
+  (cap : nat) (parse_ref : option url -> text -> option url)
+  (url_parse : text -> option url) (host_of : url -> text) (c : cache)
+  (input : jv) (source id : option url) (pid : url) (c' : cache),
+  cache_sound W is_https resolve as_tolerated c ->
+  source = None \/
+  (exists s : url, source = Some s /\ served W is_https resolve host_of (host_of s) input) ->
+  new_post W is_https resolve cap parse_ref url_parse host_of c input source =
+  (Some (id, Some pid), c') ->
+  exists pdoc : obj,
+  obj_id url_parse pdoc = Some (Some pid) /\
+  served W is_https resolve host_of (host_of pid) (JObj pdoc).
+Proof. exact new_post_parent_fact. Qed.
+Print Assumptions new_post_parent.
+
+(* a page with n entries delivers n verdicts *)
+Theorem classify_all_length :
+  forall (f : cache -> jv -> verdict * cache) (c : cache) (es : list jv),
+  length (fst (classify_all f c es)) = length es.
+Proof. exact classify_all_length_fact. Qed.
+Print Assumptions classify_all_length.
+
+(* in order, the k-th being the verdict of the k-th entry - never fewer, never reordered *)
+Theorem classify_all_nth :
+  forall (f : cache -> jv -> verdict * cache) (c : cache) (es : list jv) (i : nat) (e : jv),
+  nth_error es i = Some e ->
+  exists (ci : cache) (v : verdict) (ci' : cache),
+  nth_error (fst (classify_all f c es)) i = Some v /\ f ci e = (v, ci').
+Proof. exact classify_all_nth_fact. Qed.
+Print Assumptions classify_all_nth.
